@@ -76,10 +76,11 @@ def _pyval(v):
 
 
 # ---- program enumeration -----------------------------------------------------------------------
-def programs(nspecs, budget, max_objs):
-    """All statement lists with <= budget events. nspecs = number of (class,value) constructor specs."""
+def programs(nspecs, budget, max_objs, with_cache=False):
+    """All statement lists with <= budget events. nspecs = number of (class,value) constructor specs.
+    with_cache adds the environment event "P": a computation caches probe vectors in deterministic_probes.probe_vectors."""
 
-    def block(budget, nobj, depth):
+    def block(budget, nobj, depth, prev_p=False):
         # returns list of (stmts, nobj_after, cost)
         out = [([], nobj, 0)]
         if budget <= 0:
@@ -88,6 +89,8 @@ def programs(nspecs, budget, max_objs):
         if nobj < max_objs:
             for sp in range(nspecs):
                 firsts.append((["C", nobj, sp], nobj + 1, 1))
+        if with_cache:
+            firsts.append((["P"], nobj, 1))
         if budget >= 2 and depth < 3:
             targets = [["obj", i] for i in range(nobj)] + [["new", sp] for sp in range(nspecs)]
             for tg in targets:
@@ -95,7 +98,9 @@ def programs(nspecs, budget, max_objs):
                     for ek in ("n", "x"):
                         firsts.append((["W", tg, body, ek], nobj2, cost + 2))
         for st, nobj2, cost in firsts:
-            for rest, nobj3, cost2 in block(budget - cost, nobj2, depth):
+            if st[0] == "P" and prev_p:
+                continue  # two cache events in a row are one
+            for rest, nobj3, cost2 in block(budget - cost, nobj2, depth, st[0] == "P"):
                 out.append(([st] + rest, nobj3, cost + cost2))
         return out
 
@@ -139,7 +144,23 @@ def cases(tier, seed):
         for p in programs(len(specs), pair_budget, 2):
             if _uses_enter(p):
                 out.append({"specs": specs, "prog": p})
+    # side state of deterministic_probes: the probe cache is reset whenever the flag's state is set (every entry and every exit),
+    # so that probes cached outside a block are never used inside it and probes cached inside never survive it
+    dp = "settings.deterministic_probes"
+    side = [
+        ([[dp, [True]], [dp, [False]]], single_budget, 2),
+        ([[dp, [True]], ["settings._fast_solves", [False]]], pair_budget + 1, 2),
+        ([[dp, [True]], ["settings.fast_computations", [False, True, False]]], pair_budget, 1),
+    ]
+    for specs, b, objs in side:
+        for p in programs(len(specs), b, objs, with_cache=True):
+            if _uses_enter(p) and _has_cache(p):
+                out.append({"specs": specs, "prog": p})
     return out
+
+
+def _has_cache(prog):
+    return any(st[0] == "P" or (st[0] == "W" and _has_cache(st[2])) for st in prog)
 
 
 def bounds(tier):
@@ -150,6 +171,7 @@ def bounds(tier):
         "nesting_depth": 3,
         "classes": [c["name"] for c in catalogue()],
         "exit_kinds": ["normal", "exception raised inside the block"],
+        "side_state": "deterministic_probes.probe_vectors with a 'probes cached' environment event at every position",
     }
 
 
@@ -158,6 +180,7 @@ class Model:
     def __init__(self):
         self.slots = dict(env.PRISTINE)
         self.stack = []
+        self.probes_cached = False
 
     @staticmethod
     def governed(name, vals):
@@ -189,13 +212,18 @@ class Model:
     def enter(self, name, vals):
         gov, skip_none = self.governed(name, vals)
         self.stack.append({k: self.slots[k] for k in gov})
+        if ("settings.deterministic_probes", "_state") in gov:
+            self.probes_cached = False
         for k, v in gov.items():
             if skip_none and v is None:
                 continue
             self.slots[k] = v
 
     def exit(self):
-        self.slots.update(self.stack.pop())
+        prev = self.stack.pop()
+        if ("settings.deterministic_probes", "_state") in prev:
+            self.probes_cached = False
+        self.slots.update(prev)
 
 
 def observe():
@@ -209,6 +237,7 @@ def observe():
             obs[qual] = (cls.value(),)
         else:
             obs[qual] = (cls.value(torch.float), cls.value(torch.double), cls.value(torch.half))
+    obs["settings.deterministic_probes.probe_vectors"] = (S.deterministic_probes.probe_vectors is not None,)
     return obs
 
 
@@ -224,6 +253,7 @@ def model_observe(m):
             obs[qual] = (m.slots[(qual, "_global_value")],)
         else:
             obs[qual] = tuple(m.slots[(qual, s)] for s in ("_global_float_value", "_global_double_value", "_global_half_value"))
+    obs["settings.deterministic_probes.probe_vectors"] = (m.probes_cached,)
     return obs
 
 
@@ -244,6 +274,9 @@ def render(specs, prog):
             if st[0] == "C":
                 lines.append(f"{pad}c{st[1]} = {ctor(st[2])}")
                 lines.append(f"{pad}EV('construct', {st[2]})")
+            elif st[0] == "P":
+                lines.append(f"{pad}S.deterministic_probes.probe_vectors = torch.ones(3, 2)")
+                lines.append(f"{pad}EV('cache', None)")
             else:
                 _, tg, body, ek = st
                 target = f"c{tg[1]}" if tg[0] == "obj" else ctor(tg[1])
@@ -285,7 +318,7 @@ def run(case):
         for st in stmts:
             if st[0] == "C":
                 spec_of[f"c{st[1]}"] = st[2]
-            else:
+            elif st[0] == "W":
                 walk_bind(st[2])
 
     walk_bind(prog)
@@ -302,9 +335,12 @@ def run(case):
                 nontrivial[0] = True
         elif kind == "exit":
             m.exit()
+        elif kind == "cache":
+            m.probes_cached = True
+            nontrivial[0] = True
         got, want = observe(), model_observe(m)
         key = json.dumps([sorted((f"{k[0]}.{k[1]}", repr(v)) for k, v in m.slots.items() if env.PRISTINE[k] != v),
-                          len(m.stack), constructed], default=str)
+                          len(m.stack), constructed, m.probes_cached], default=str)
         keys.append(env_hash(key + json.dumps(specs, default=str)))
         if got != want and not bad:
             diff = {q: (repr(got[q]), repr(want[q])) for q in got if got[q] != want[q]}
